@@ -38,10 +38,11 @@ def omni_rewrite_pattern(repo):
 
 
 def _encoder_job(args):
-    root, enc = args
+    root, enc, gcls, dcls = args
     repo = Repo(root)
     out = {"encoder": enc}
-    p = lang.Pairing(repo, enc)
+    p = lang.Pairing(repo, enc, gcls, dcls)
+    out["default_pairing"] = gcls is None
     out["grammar"], out["decoder"] = p.gcls, p.dcls
     bare = p.bare()
     out["bare_states"] = bare.nstates()
@@ -101,8 +102,17 @@ def _reader_job(args):
     out["g2_decoder_only"] = _w(uq - tu, 3)
     # which classes the token-only strings fall in (finding keys)
     cls = rd.classes()
-    out["g2_token_only_by_class"] = {k: _w((tu - uq) & L, 2) for k, L in cls.items() if k in
-                                     ("not a value", "keyword (null/true/false)", "decimal number", "based integer", "date/time")}
+    by = {k: _w((tu - uq) & L, 2) for k, L in cls.items() if k in
+          ("keyword (null/true/false)", "decimal number", "based integer", "date/time")}
+    nv = (tu - uq) & cls["not a value"]
+    covered = SL.EMPTY
+    for k, L in key_classes(rd).items():
+        if k.startswith("reads as"):
+            continue
+        by["not a value: " + k] = _w(nv & L, 2)
+        covered = covered | L
+    by["not a value: other text (e.g. not an identifier)"] = _w(nv - covered, 2)
+    out["g2_token_only_by_class"] = by
     # N1: permissive delegation to int()/float()
     alpha = SL.star(lang.allowed_syms(repo, gcls))
     dec = cls["decimal number"] & alpha
@@ -125,12 +135,18 @@ def analyse(repo):
     key = (repo.root, repo.digest())
     if key in _CACHE:
         return _CACHE[key]
-    ejobs = [(repo.root, e) for e in lang.ENCODERS if repo.has_cls(e)]
+    ejobs = [(repo.root, e, None, None) for e in lang.ENCODERS if repo.has_cls(e)]
     if len(ejobs) < 4:
         raise AnalysisError("anchor vanished: one of the four encoder classes")
+    # encoder/grammar/decoder combinations bundled in pvl_validate.dialects that differ from the constructor defaults
+    have = {(e,) + lang.encoder_pairing(repo, e) for (_, e, _, _) in ejobs}
+    for (enc, g, d) in lang.dialect_encoder_pairings(repo):
+        if (enc, g, d) not in have:
+            have.add((enc, g, d))
+            ejobs.append((repo.root, enc, g, d))
     rjobs = [(repo.root, c.name, c.grammar, c.decoder) for c in tokproto.configs_from_repo(repo)]
     try:
-        with ProcessPoolExecutor(max_workers=min(9, os.cpu_count() or 1)) as ex:
+        with ProcessPoolExecutor(max_workers=min(12, os.cpu_count() or 1)) as ex:
             fe = [ex.submit(_encoder_job, j) for j in ejobs]
             fr = [ex.submit(_reader_job, j) for j in rjobs]
             enc = [f.result() for f in fe]
@@ -150,6 +166,10 @@ def rule_s1(repo, res, an, which="own"):
     rule = "S1" if which == "own" else "S1-OMNI"
     for e in an["encoders"]:
         reader = f"{e['decoder']}/{e['grammar']}" if which == "own" else "OmniDecoder/OmniGrammar"
+        if which != "own" and not e.get("default_pairing", True):
+            continue
+        ename = e["encoder"] if e.get("default_pairing", True) else f"{e['encoder']}({e['grammar']}, {e['decoder']})"
+        e = dict(e, encoder=ename)
         for cname, ws in e["s1_" + which].items():
             ok = not ws
             res.oblige(rule, f"{e['encoder']}: bare strings ∩ '{cname}' of {reader} = ∅", ok=ok,
@@ -166,10 +186,11 @@ def rule_s1(repo, res, an, which="own"):
                             f"bare strings such as {rest} are not returned unchanged by {reader}", witness=rest[0]))
         res.samples.append({"encoder": e["encoder"], "bare_language_states": e["bare_states"],
                             "bare_samples": e["bare_samples"], "functions_evaluated": e["visited"][:12]})
-    res.floor(f"{rule} obligations", sum(len(e["s1_" + which]) for e in an["encoders"]), 28)
+    res.floor(f"{rule} obligations", sum(len(e["s1_" + which]) for e in an["encoders"] if e.get("default_pairing", True)), 28)
 
 
 def rule_s2(repo, res, an):
+    an = dict(an, encoders=[e for e in an["encoders"] if e.get("default_pairing", True)])
     for e in an["encoders"]:
         for m, per in e["s2"].items():
             what = "parameter name" if m == "encode_assignment" else "block name"
@@ -185,6 +206,7 @@ def rule_s2(repo, res, an):
 
 
 def rule_k1(repo, res, an):
+    an = dict(an, encoders=[e for e in an["encoders"] if e.get("default_pairing", True)])
     """ODL/PDS3 parameter names: [^]identifier[:identifier], at most 30 characters."""
     for e in an["encoders"]:
         if e["encoder"] not in repo.subclasses("ODLEncoder"):
@@ -244,6 +266,7 @@ def rule_tb8(repo, res, an):
 
 
 def rule_o2(repo, res, an):
+    an = dict(an, encoders=[e for e in an["encoders"] if e.get("default_pairing", True)])
     """O2: the permissive reader deletes `P` = dash + line end (+ white space)
     from the whole document before lexing.  No encoder may be able to emit a
     bare value ending in a first character of P directly before a line end."""
@@ -284,7 +307,7 @@ def rule_o1(repo, res, an):
     for enc in lang.ENCODERS:
         gcls, dcls = lang.encoder_pairing(repo, enc)
         g = tables.grammar_instance(repo, gcls)
-        allowed = set([e for e in an["encoders"] if e["encoder"] == enc][0]["bare_alphabet"])
+        allowed = set([e for e in an["encoders"] if e["encoder"] == enc and e.get("default_pairing", True)][0]["bare_alphabet"])
         own_openers = {p[0] for p in g.comments}
         for pair in omni.comments:
             op = pair[0]
